@@ -75,6 +75,10 @@ def build(case):
         zs = [3 + 2 * i for i in range(nz)]
     if case.get("z_shuffled"):
         random.Random(case["seed"] + 9).shuffle(zs)   # non-monotonic order
+    if case.get("coord_uint"):
+        # coordinates stored as unsigned integers (np.arange(..., dtype=...))
+        xs = np.array([1 + 2 * i for i in range(nx)], dtype=np.uint8)
+        zs = np.array(zs, dtype=np.uint16)
     if case.get("x_desc"):
         xs = xs[::-1]           # a coordinate swept downwards
     if case.get("z_desc"):
@@ -590,6 +594,8 @@ def strategy(draw):
         case["colorbar"] = draw(st.sampled_from([None, False, True]))
         case["colormap_reverse"] = draw(st.sampled_from([None, None, True]))
         case["x_desc"] = draw(st.sampled_from([False, False, True]))
+        case["coord_uint"] = case["ztype"] == "int" and \
+            draw(st.sampled_from([False, False, True]))
         case["z_desc"] = draw(st.sampled_from([False, False, True]))
         return case
     if kind == "histogram":
